@@ -40,17 +40,17 @@ M = [
  ("file_read_count", "C20", "src/File.c", "  size_t num = fread(output, size, 1, f->file);", 1, "  size_t num = fread(output, size > 3 ? size - 1 : size, 1, f->file);", "read returns one byte less for larger reads"),
  # strings
 
- ("float_cmp_truncate", "C09", "src/Num.c", "  double c = Float_C_Float(self) - c_float(obj);", 1, "  double c = (double)(int64_t)(Float_C_Float(self) - c_float(obj));", "differences below 1 compare equal"),
+ ("float_cmp_truncate", "C09", "src/Num.c", "  return a > b ? 1 : a < b ? -1 : 0;\n}\n\nunion interp_cast", 1, "  return (int64_t)a > (int64_t)b ? 1 : (int64_t)a < (int64_t)b ? -1 : 0;\n}\n\nunion interp_cast", "differences below 1 compare equal"),
  ("array_set_bound_gt", "C12", "src/Array.c", "  if (i < 0 or i >= (int64_t)a->nitems) {\n    throw(IndexOutOfBoundsError, \n      \"Index '%i' out of bounds for Array of size %i.\", key, $I(a->nitems));\n    return;", 1, "  if (i < 0 or i > (int64_t)a->nitems) {\n    throw(IndexOutOfBoundsError, \n      \"Index '%i' out of bounds for Array of size %i.\", key, $I(a->nitems));\n    return;", "set at index len is accepted"),
  ("print_s_pos_strlen", "C14", "src/Show.c", "        if (off < 0) { throw(FormatError, \"Unable to output String!\"); }\n        pos += off;", 1, "        if (off < 0) { throw(FormatError, \"Unable to output String!\"); }\n        pos += strlen(c_str(a));", "position after %s ignores width padding"),
  ("show_newline_as_r", "C15", "src/String.c", "      case '\\n': pos = print_to(out, pos, \"\\\\n\"); break;", 1, "      case '\\n': pos = print_to(out, pos, \"\\\\r\"); break;", "newline shown as \\r"),
  ("string_resize_no_term", "C16", "src/String.c", "    s->val[n] = '\\0';", 1, "    ;", "shrinking a String does not terminate it"),
- ("string_concat_no_nul_room", "C16", "src/String.c", "  s->val = realloc(s->val, strlen(s->val) + strlen(c_str(obj)) + 1);", 1, "  s->val = realloc(s->val, strlen(s->val) + strlen(c_str(obj)));", "concat allocates no room for the terminator"),
+ ("string_concat_no_nul_room", "C16", "src/String.c", "  s->val = realloc(s->val, n + m + 1);", 1, "  s->val = realloc(s->val, n + m);", "concat allocates no room for the terminator"),
  ("list_alloc_heap_class", "C19", "src/List.c", "    (char*)item + 2 * sizeof(var)), l->type, AllocData);", 1, "    (char*)item + 2 * sizeof(var)), l->type, AllocHeap);", "List elements claim to be heap objects"),
  ("dealloc_accepts_embedded", "C19", "src/Alloc.c", "  if (header(self)->alloc is (var)AllocData) {\n    throw(ResourceError,", 1, "  if (false) {\n    throw(ResourceError,", "dealloc of a container-embedded object is not refused"),
  ("array_get_neg_only_checked", "C18", "src/Array.c", "  i = i < 0 ? a->nitems+i : i;\n  \n#if CELLO_BOUND_CHECK == 1\n  if (i < 0 or i >= (int64_t)a->nitems) {\n    return throw(", 1, "  \n#if CELLO_BOUND_CHECK == 1\n  i = i < 0 ? a->nitems+i : i;\n  if (i < 0 or i >= (int64_t)a->nitems) {\n    return throw(", "negative indices resolved only in checked builds"),
  ("join_returns_early", "C13", "src/Thread.c", "  int err = pthread_join(t->thread, NULL);", 1, "  int err = 0; { static int n; if (++n % 3) err = pthread_join(t->thread, NULL); }", "every third join returns without waiting"),
- ("thread_exit_keeps_collector", "C13", "src/Thread.c", "  del_raw(exc);\n  \n#ifndef CELLO_NGC\n  del_raw(gc);\n#endif", 1, "  del_raw(exc);\n  \n#ifndef CELLO_NGC\n  (void)gc;\n#endif", "a finished thread does not tear its collector down (objects it still managed are never finalised)"),
+ ("thread_exit_keeps_collector", "C13", "src/Thread.c", "#ifndef CELLO_NGC\n  del_raw(gc);\n#endif\n  \n  del_raw(exc);\n  \n  return x;", 1, "#ifndef CELLO_NGC\n  (void)gc;\n#endif\n  \n  del_raw(exc);\n  \n  return x;", "a finished thread does not tear its collector down (objects it still managed are never finalised)"),
  ("tuple_popat_keep_last", "C04", "src/Tuple.c", None, 1, None, "placeholder"),
 ]
 
@@ -63,7 +63,7 @@ BENIGN = [
  ("benign_gc_hash_shift", "C01 C06 C17 C18", "src/GC.c", "  return ((uintptr_t)ptr) >> 3;", 1, "  return ((uintptr_t)ptr) >> 4;", "collector hashes addresses differently"),
  ("benign_hash_seed", "C02 C10 C16", "src/Hash.c", "	uint64_t h = 0xCe110 ^ (size * m);", 1, "	uint64_t h = 0xBe110 ^ (size * m);", "another seed for the data hash"),
  ("benign_list_at_from_head", "C04 C05 C11", "src/List.c", "  if (i <= (int64_t)(l->nitems / 2)) {", 1, "  if (true) {", "List indexing always walks from the head"),
- ("benign_string_concat_extra_room", "C16 C19", "src/String.c", "  s->val = realloc(s->val, strlen(s->val) + strlen(c_str(obj)) + 1);", 1, "  s->val = realloc(s->val, strlen(s->val) + strlen(c_str(obj)) + 17);", "String concat over-allocates"),
+ ("benign_string_concat_extra_room", "C16 C19", "src/String.c", "  s->val = realloc(s->val, n + m + 1);", 1, "  s->val = realloc(s->val, n + m + 17);", "String concat over-allocates"),
  ("benign_message_text", "C12 C04 C02 C20", "src/Array.c", "\"Index '%i' out of bounds for Array of size %i.\"", 1, "\"Array index %i is outside 0..%i\"", "reworded exception message"),
  ("benign_gc_threshold", "C01 C06 C17 C13", "src/GC.c", "  gc->mitems = gc->nitems + gc->nitems / 2 + 1;", 1, "  gc->mitems = gc->nitems + gc->nitems / 4 + 8;", "collections are triggered at other allocation counts"),
 ]
